@@ -112,7 +112,19 @@ def execute(ctx, res, scenario, prefill_head=False):
 
     _, _, w = _wrap_site(ctx)
     rankers = [m for m in cls.methods.values() if m is not res and any(isinstance(c, ast.Call) and ((isinstance(c.func, ast.Attribute) and c.func.attr == "sort") or (isinstance(c.func, ast.Name) and c.func.id == "sorted")) for c in ast.walk(m.node))]
-    called = {c.func.attr for c in ast.walk(res.node) if isinstance(c, ast.Call) and isinstance(c.func, ast.Attribute) and isinstance(c.func.value, ast.Name) and c.func.value.id == rv}
+    called = set()
+    todo_, seen_ = [res], set()
+    while todo_:
+        cur_ = todo_.pop()
+        if cur_.key in seen_:
+            continue
+        seen_.add(cur_.key)
+        r_ = recv_name(cur_)
+        for c in ast.walk(cur_.node):
+            if isinstance(c, ast.Call) and isinstance(c.func, ast.Attribute) and isinstance(c.func.value, ast.Name) and c.func.value.id == r_:
+                called.add(c.func.attr)
+                if c.func.attr in cls.methods:
+                    todo_.append(cls.methods[c.func.attr])
     rankers = [m for m in rankers if m.name in called]
     if len(rankers) != 1:
         raise AnalysisError(f"{cls.key}: candidate ranking method not found")
@@ -285,9 +297,9 @@ LAW_TEXT = {
 
 
 def law(ctx, *names, scenarios=None):
-    from .c10 import _wrap_site
+    from .c10 import resolution_entry
 
-    res, _, _ = _wrap_site(ctx)
+    res = resolution_entry(ctx)
     ctx.touch(res)
     cache = ctx.cache.setdefault("resolve_checked", {})
     for sc in scenarios or SCENARIOS:
@@ -318,9 +330,9 @@ def with_fallback(ctx, laws, fallback, scenarios=None):
 def law_prefilled(ctx):
     """The same laws with the bare key's entry already present (what a concurrent resolution of the same key leaves
     behind between its stores): the chain below must still be installed."""
-    from .c10 import _wrap_site
+    from .c10 import resolution_entry
 
-    res, _, _ = _wrap_site(ctx)
+    res = resolution_entry(ctx)
     ctx.touch(res)
     for sc in ("chain-of-three", "tie-below", "dependent-rank-below"):
         probs = check(ctx, res, sc, prefill_head=True)
